@@ -277,6 +277,16 @@ class Expander:
             bc_ = tmp.match_close(bo_)
             body_text = body_text[:bo_] + '{ vx_unproved_branch() }' + body_text[bc_ + 1:]
             self.local_rewrites.append({'fn': label, 'regex': rx, 'replacement': '<block stubbed: unproved branch>', 'count': 1})
+        # ghost insertion (proof blocks only): `ghost-before: <regex> => <proof text>`; the executable text is untouched
+        for ln in sections.get('ghost-before', []):
+            rx, rep = ln.split(' => ', 1)
+            m = re.search(rx.strip(), body_text)
+            if not m:
+                raise AnchorLost('%s: ghost-before /%s/ no longer matches' % (label, rx.strip()))
+            if not rep.strip().startswith(('proof {', 'assert', 'broadcast use')):
+                raise SystemExit('ghost-before must insert a proof block or assert')
+            body_text = body_text[:m.start()] + rep.strip() + '\n' + body_text[m.start():]
+            self.local_rewrites.append({'fn': label, 'regex': rx.strip(), 'replacement': '<ghost proof block inserted before>', 'count': 1})
         # loop invariants
         loop_secs = {int(k.split()[1]): v for k, v in sections.items() if k.startswith('loop ')}
         if loop_secs:
@@ -414,7 +424,7 @@ class Expander:
                         if not m:
                             raise SystemExit('bad directive line: ' + l2)
                         key = m.group(1)
-                        if key in ('replace', 'opt-replace', 'stub-block'):
+                        if key in ('replace', 'opt-replace', 'stub-block', 'ghost-before'):
                             sections.setdefault(key, []).append(m.group(2))
                             cur = None
                         else:
